@@ -164,6 +164,68 @@ def run_case(ctx, h, tmp):
         ctx.sample({'case': h, 'format': fmt, 'options': label, 'objects': len(m.objs), 'fault_positions': len(positions)})
 
 
+def several_packages_case(ctx, k, tmp):
+    """models whose classes come from several packages — an extension package, two versions of a metamodel — that may share
+    one namespace prefix: two (three) consecutive saves write the same bytes, under every option set"""
+    import os
+    from pyecore import ecore as E
+    from pyecore.resources import ResourceSet, URI
+    from pyecore.resources.xmi import XMIOptions
+    from pyecore.resources.json import JsonResource, JsonOptions
+    rng = common.sub_rng(ctx.seed, 'C16', 'packages', k)
+    npk = rng.choice([2, 2, 3])
+    same_prefix = rng.random() < .7
+    pks, classes = [], []
+    for i in range(npk):
+        pk = E.EPackage(f'model{i}', f'http://verif/c16/v{i}', 'model' if same_prefix else f'm{i}')
+        c = E.EClass(f'Node{i}' if rng.random() < .5 else 'Node')
+        c.eStructuralFeatures.append(E.EAttribute('name', E.EString))
+        pk.eClassifiers.append(c)
+        pks.append(pk); classes.append(c)
+    base = classes[0]
+    base.eStructuralFeatures.append(E.EReference('kids', base, upper=-1, containment=True))
+    base.eStructuralFeatures.append(E.EReference('friend', base))
+    for c in classes[1:]:
+        c.eSuperTypes.append(base)
+    root = base(name='root')
+    objs = [root]
+    for j in range(rng.randint(2, 6)):
+        o = rng.choice(classes)(name=f'n{j}')
+        rng.choice(objs).kids.append(o)
+        objs.append(o)
+    for o in objs:
+        if rng.random() < .5:
+            o.friend = rng.choice(objs)
+    for fmt in ('xmi', 'json'):
+        rset = ResourceSet()
+        rset.resource_factory['json'] = lambda uri: JsonResource(uri)
+        path = os.path.join(tmp, f'pk{k}.{fmt}')
+        res = rset.create_resource(URI(path))
+        res.use_uuid = rng.random() < .3
+        res.append(root)
+        optsets = [None, {XMIOptions.SERIALIZE_DEFAULT_VALUES: True}, {XMIOptions.OPTION_USE_XMI_TYPE: True}] if fmt == 'xmi' \
+            else [None, {JsonOptions.SERIALIZE_DEFAULT_VALUES: True}]
+        opts = rng.choice(optsets)
+        try:
+            outs = []
+            for _ in range(3):
+                res.save(options=opts)
+                outs.append(open(path, 'rb').read())
+        except Exception:
+            ctx.count('packages/save-raised/' + fmt)
+            res.remove(root)
+            continue
+        res.remove(root)
+        ctx.evaluations += 1
+        ctx.count(f'packages/{fmt}/' + ('shared-prefix' if same_prefix else 'own-prefixes'))
+        ctx.nontriv(('packages', k, fmt))
+        if not (outs[0] == outs[1] == outs[2]):
+            ctx.violate({'clause': 'not-deterministic', 'format': fmt},
+                        f'consecutive saves of a model over {npk} packages ({"one shared prefix" if same_prefix else "own prefixes"}) differ [{fmt}, options {opts}]',
+                        {'case': k, 'format': fmt, 'packages': True})
+            return
+
+
 def run(ctx):
     common.use_repo()
     n = 80 if ctx.quick() else 2000
@@ -176,6 +238,8 @@ def run(ctx):
     try:
         for h in range(n):
             run_case(ctx, h, tmp)
+        for k in range(n // 2):
+            several_packages_case(ctx, k, tmp)
     finally:
         shutil.rmtree(tmp, ignore_errors=True)
     ctx.assumptions += ['OS-level write failures (disk full) are outside the statement ("cannot be serialized")',
